@@ -62,6 +62,7 @@ class Sentence(object):
 
     def __init__(self, out, nls, theme=None):
         self.theme = theme
+        self.raw = (out, list(nls))
         self.tokens = []
         self.items = []
         self.root = None
@@ -131,6 +132,34 @@ class Sentence(object):
             a = (':' + n.attr) if n.attr else ''
             return '(%s%s%s)' % (n.kind, a, (' ' + inner) if inner else '')
         return r(self.root)
+
+
+def ends_explicitly(sent):
+    """the last item of the program is a real token (no virtual semicolon
+    at the end): another program may follow it directly"""
+    return bool(sent.items) and not sent.items[-1].virtual
+
+
+def compose(parts, theme='composed'):
+    """Programs written after one another are a program (SourceElements is
+    a list): the products of the derivation machine are concatenated inside
+    one ES5Program.  Every part but the last must end explicitly, so that no
+    automatic semicolon insertion depends on what follows."""
+    out = []
+    nls = []
+    ntok = 0
+    head = tail = None
+    for k, s in enumerate(parts):
+        o, n = s.raw
+        if o[0][:2] != ['(', 'ES5Program'] or o[-1] != [')']:
+            raise ValueError('not a Program product')
+        if k < len(parts) - 1 and not ends_explicitly(s):
+            raise ValueError('part %d ends in a virtual semicolon' % k)
+        head, tail = o[0], o[-1]
+        out.extend(o[1:-1])
+        nls.extend(i + ntok for i in n)
+        ntok += len(s.tokens)
+    return Sentence([head] + out + [tail], nls, theme)
 
 
 def parse_lines(lines, theme=None):
